@@ -109,6 +109,7 @@ def case_strategy(draw):
     if kernel == "max_step":
         case["sigma"] = draw(st.booleans())
         case["sigma_none"] = draw(st.booleans())       # sigma = None given explicitly (the documented default value)
+        case["huge"] = draw(st.integers(0, 7)) == 0      # the same vector scaled by 2**130 (beyond the single precision range)
     if kernel == "scale":
         case["int_beta"] = draw(st.booleans())         # "beta: list of positive numbers": integral values as Python ints
     return case
@@ -196,6 +197,8 @@ def run_kernel(case, name, M):
     dims, mnl = case["dims"], case["mnl"]
     N = rc.cdim(dims, mnl)
     x0 = np.array(case["x"], dtype=float)
+    if k == "max_step" and case.get("huge"):
+        x0 = x0 * 2.0 ** 130
     y0 = np.array(case["y"], dtype=float)
     lm = rc.lower_mask(dims, mnl)
     what = "%s(dims=%r, mnl=%d)" % (k, dims, mnl)
